@@ -849,7 +849,29 @@ class Check(PropertyCheck):
         lines.append({"resume": "c 0 0 0 1", "edit": f"c 0 0 0 {edited}", "kill": "c 0 1 0 1"}[act])
         for key, id_, c in pending:
             lines.append(f"c {key} 0 0 {c}")
-        return [l for l in lines if l != "mark"] + ["#%d" % lines.index("mark")]
+        # the same schedule through the COMPOSED system (layer x flow x hook tasks, Model/C11 `pstep`): no completion is
+        # written by the harness here — `p <key> d` only ATTEMPTS a delivery, which the model enables iff the hook task
+        # has returned from wait_for_resume.  One product instance is one flow: when the flow is killed, messages of
+        # OTHER flows queued in the same layer (pipelined HTTP/1 request, second DNS query) would wrongly inherit the
+        # kill, so those cases are tied through the layer model only.
+        plines = []
+        if not (act == "kill" and pending and kind in ("http", "dnsReq")):
+            plines.append(f"reset {kind}")
+            seen_mark = verdict_done = False
+            for l in lines[1:]:
+                t = l.split()
+                if l == "mark":
+                    seen_mark = True
+                    plines.append("p 0 d")          # attempted while the flow is intercepted: must do nothing
+                elif t[0] == "a": plines.append(f"p {t[1]} a {t[2]} {t[3]}")
+                elif t[0] == "x": plines.append(f"p {t[1]} x {t[2]} {t[3]}")
+                elif t[0] == "c" and t[1] == "0" and seen_mark and not verdict_done:
+                    verdict_done = True
+                    if act == "edit": plines.append(f"p 0 e {edited}")
+                    plines.append("p 0 kill" if act == "kill" else "p 0 resume")
+                    plines.append("p 0 d")
+                else: plines.append(f"p {t[1]} d")
+        return [l for l in lines if l != "mark"] + ["#%d" % lines.index("mark")] + plines
 
     def model_obs(self, case, replies):
         if case["level"] == "async":
@@ -862,18 +884,27 @@ class Check(PropertyCheck):
                 else: cur = r.split()[0]
             out.append(cur)
             return out
-        mark = int(self._mark(case))
-        outs_before = " ".join(replies[1:mark]).split()
-        outs_after = " ".join(replies[mark:]).split()
-        allouts = [o for o in outs_before + outs_after if o != "-"]
-        sends = sorted(o[1:] for o in allouts if o.startswith("S"))
-        return {"hooks": [int(o[1:]) for o in allouts if o.startswith("H") and o[1:] in ("1", "2", "3")],
-                "sent_while_held": sum(1 for o in outs_before if o.startswith("S1:")),
-                "sends": sends, "error": any(o == "E1" for o in allouts)}
+        lines = self.model_lines(case)
+        mi = next(i for i, l in enumerate(lines) if l.startswith("#"))
+        mark = int(lines[mi][1:])
 
-    @staticmethod
-    def _mark(case):
-        return Check().model_lines(case)[-1][1:]
+        def view(before, after):
+            outs_before = " ".join(before).split()
+            outs_after = " ".join(after).split()
+            allouts = [o for o in outs_before + outs_after if o not in ("-", "!")]
+            sends = sorted(o[1:] for o in allouts if o.startswith("S"))
+            return {"hooks": [int(o[1:]) for o in allouts if o.startswith("H") and o[1:] in ("1", "2", "3")],
+                    "sent_while_held": sum(1 for o in outs_before if o.startswith("S1:")),
+                    "sends": sends, "error": any(o == "E1" for o in allouts)}
+        out = view(replies[1:mark], replies[mark:mi])
+        pl, pr = lines[mi + 1:], replies[mi + 1:]
+        if pl:
+            # composed system: everything up to and including the delivery attempted while intercepted is "while held"
+            pm = pl.index("p 0 d")
+            out["product"] = dict(view(pr[1:pm + 1], pr[pm + 1:]), attempt_while_intercepted=pr[pm])
+        else:
+            out["product"] = None
+        return out
 
     def impl_view(self, case, obs):
         if case["level"] == "async":
@@ -888,15 +919,21 @@ class Check(PropertyCheck):
         fin = "2" if obs.get("held_at_resume") == "MSGBBBB" else "1"
         if obs["after_final"]: sends += [f"1:{fin}"] * obs["after_final"]
         if obs.get("after_orig"): sends += ["1:%s" % ("1" if fin == "2" else "2")] * obs["after_orig"]
-        if obs["next_after"]: sends += ["2:3"] * min(obs["next_after"], 1 if KIND[case["proto"]] != "dnsResp" else obs["next_after"])
+        if obs["next_after"]: sends += ["2:3"] * obs["next_after"]
         if obs.get("reverse_after"): sends += ["3:5"] * obs["reverse_after"]
         sib = obs["between"].get("sibling")
         if sib and sib["request_reached_server"] and case["proto"] == "http2_req": sends.append("4:7")
         if sib and sib["response_reached_client"] and case["proto"] == "http2_resp": sends.append("4:7")
         honoured = KIND[case["proto"]] in ("http", "dnsReq")
-        return {"hooks": [ids[m] for m in obs["hook_log"] if m in ids and ids[m] in (1, 2, 3)],
-                "sent_while_held": obs["during1"], "sends": sorted(sends),
-                "error": bool(honoured and obs["error"] and not obs["after_final"])}
+        v = {"hooks": [ids[m] for m in obs["hook_log"] if m in ids and ids[m] in (1, 2, 3)],
+             "sent_while_held": obs["during1"], "sends": sorted(sends),
+             "error": bool(honoured and obs["error"] and not obs["after_final"])}
+        # the composed model must predict the same, and that a delivery attempted while the flow was intercepted did
+        # nothing and left delivery disabled ("-" without the "!" marker)
+        lines = self.model_lines(case)
+        has_product = lines is not None and not lines[-1].startswith("#")
+        v["product"] = dict(v, attempt_while_intercepted="-") if has_product else None
+        return v
 
     def classify(self, case, obs):
         if case["level"] == "world":
